@@ -75,8 +75,8 @@ theorem replay_eq_chain (fin margin : Nat) (g : Block) (hg : g.height = 0) (bs :
 /-- Non-vacuity / sanity: a concrete history with a reorganisation (trunk 1, branch 2–3 vs
 heavier branch 4, margin 1) produces a log with a delete record, and it replays to the chain. -/
 example :
-    let s := deliverAll (init 0 1 true ⟨0, 0, 0, 5⟩)
-      [⟨1, 0, 1, 1⟩, ⟨2, 1, 2, 1⟩, ⟨4, 1, 2, 9⟩, ⟨3, 2, 3, 1⟩]
+    let s := deliverAll (init 0 1 true ⟨0, 0, 0, 5, []⟩)
+      [⟨1, 0, 1, 1, []⟩, ⟨2, 1, 2, 1, []⟩, ⟨4, 1, 2, 9, []⟩, ⟨3, 2, 3, 1, []⟩]
     seqLog s = [some (true, 0), some (true, 1), some (true, 2), some (false, 2), some (true, 4)] ∧
     replay (seqLog s) = some [4, 1, 0] := by
   decide
